@@ -97,6 +97,33 @@ def relations(cases, impl):
         p = parse(t)
         if p[0] == "f": return struct.unpack("<d", struct.pack("<Q", int(p[1][1:], 16)))[0]
         return None
+    # the value itself, where it can be computed independently: an arithmetic function over integer literals is the
+    # left-to-right integer fold of its arguments (truncating division); compared when nothing overflows or divides by zero
+    def int_fold(t):
+        p = parse(t)
+        if p[0] != "fn" or unS(p[1]) not in ("add", "subtract", "multiply", "divide") or not all(isinstance(a, list) and a[0] == "i" for a in p[2:]): return None
+        xs = [int(a[1]) for a in p[2:]]
+        acc = xs[0]
+        for x in xs[1:]:
+            opn = unS(p[1])
+            if opn == "add": acc += x
+            elif opn == "subtract": acc -= x
+            elif opn == "multiply": acc *= x
+            else:
+                if x == 0: return None
+                acc = abs(acc) // abs(x) * (1 if (acc >= 0) == (x >= 0) else -1)
+            if not -2**63 <= acc < 2**63: return None
+        return acc
+    for (case, tag), (out, res) in zip(cases, impl):
+        if tag != "value": continue
+        prior, (a, b) = _last(case)
+        want = int_fold(obs.to_text(b))
+        if want is None: continue
+        REL_STATS["integer_values_checked"] = REL_STATS.get("integer_values_checked", 0) + 1
+        pr = obs.parse_result(res)
+        got = pr[1][9] if pr[0] == "some" and len(pr[1]) > 9 else None
+        if got != ["i", str(want)]:
+            yield dict(case=case, tag=tag, why="the value of the function is not the integer fold of its arguments (%d)" % want, implementation=dict(result=res))
     for (case, tag), (out, res) in zip(cases, impl):
         if tag == "fn-fn":
             # two function terms: the outcome of unifying their VALUES (two constants: the same constant or not)
